@@ -122,7 +122,7 @@ def info(tier):
         "iteratively folded reference and pairwise; distinct = (kind, op, n, build) cells + canonical random recipes" % len(KINDS),
         "required_cells": [f"kind:{k}" for k in KINDS] + [f"op:{o}" for o in OPS] + [f"n:{n}" for n in (60, 120, 399, 400, 401, 450, 900, 5000, 20000)]
         + ["build:left-deep", "build:left-deep-fresh-leaves", "build:balanced", "build:vectorised", "obs:after-set", "obs:variables", "obs:degree", "obs:gradient", "obs:evaluate",
-           "obs:compiled-value", "obs:compiled-gradient", "obs:solve", "thresholds-lowered"],
+           "obs:compiled-value", "obs:compiled-gradient", "obs:solve", "thresholds-lowered"] + [f"outer:{f}" for f in R.FUNCS],
         "assumptions": ["reference folds the term list iteratively (no recursion limit involved)",
                         "chains draw their terms from <= 8 variables (depth is what matters)"],
     }
@@ -178,8 +178,9 @@ def build_balanced(b, terms, op):
     return objs[0] / tree(objs[1:], operator.mul)
 
 
-def run_chain(rec, rng, kind, op, n, heavy):
-    """heavy: value/compile/solve observations too (n <= 900)."""
+def run_chain(rec, rng, kind, op, n, heavy, outer=None):
+    """heavy: value/compile/solve observations too (n <= 900).
+    outer: a unary function applied to the whole accumulation, f(t_1 + ... + t_n) (argument mapped into f's domain)."""
     from optyx import analysis as AN
     from optyx.core import autodiff as AD
     from optyx.core import compiler as C
@@ -189,10 +190,35 @@ def run_chain(rec, rng, kind, op, n, heavy):
     # the derivative of a product / quotient chain is O(n) per variable: 2 variables there, 5 for sums
     NV[0] = 2 if op in ("*", "/") else 5
     terms = [damp(op, base_term(kind, i)) for i in range(n)]
-    rec.case({"k": kind, "op": op, "n": n})
+    rec.case({"k": kind, "op": op, "n": n, "outer": outer})
     pt = {nm: round(0.35 + 0.11 * j, 3) for j, nm in enumerate(NAMES)}
-    show = {"kind": kind, "op": op, "n": n, "first_terms": [A.render(t) for t in terms[:3]]}
-    cells = [f"kind:{kind}", f"op:{op}", f"n:{n}"]
+    show = {"kind": kind, "op": op, "n": n, "first_terms": [A.render(t) for t in terms[:3]], **({"outer": f"{outer}(accumulation)"} if outer else {})}
+    cells = [f"kind:{kind}", f"op:{op}", f"n:{n}"] + ([f"outer:{outer}"] if outer else [])
+
+    def wrap_ref(alg, acc):
+        # f(acc) with the argument mapped into the domain exactly as wrap_obj does
+        if outer is None:
+            return acc
+        if outer in ("log", "log2", "log10", "sqrt", "acosh"):
+            acc = alg.add(alg.mul(acc, acc), alg.const(1.5))
+        elif outer in ("asin", "acos", "atanh"):
+            acc = alg.mul(alg.fn("tanh", alg.mul(acc, alg.const(1e-3))), alg.const(0.9))
+        elif outer in ("exp", "sinh", "cosh", "tan"):
+            acc = alg.mul(acc, alg.const(1e-3))
+        return alg.fn(outer, acc)
+
+    def wrap_obj(e):
+        import optyx
+
+        if outer is None:
+            return e
+        if outer in ("log", "log2", "log10", "sqrt", "acosh"):
+            e = e * e + 1.5
+        elif outer in ("asin", "acos", "atanh"):
+            e = optyx.tanh(e * 1e-3) * 0.9
+        elif outer in ("exp", "sinh", "cosh", "tan"):
+            e = e * 1e-3
+        return getattr(optyx, "abs_" if outer == "abs" else outer)(e)
 
     def bad(what, build, **kw):
         rec.violation(what, {"kind": kind, "op": op, "n": n, "build": build, "show": show, **kw})
@@ -206,7 +232,7 @@ def run_chain(rec, rng, kind, op, n, heavy):
     V = R.natural_sorted(used)
     jalg = R.JetAlg(1, V, pt, D.param_values())
     with np.errstate(all="ignore"):
-        jref = fold_ref(jalg, R.Interp(D, jalg), terms, op)
+        jref = wrap_ref(jalg, fold_ref(jalg, R.Interp(D, jalg), terms, op))
     if not math.isfinite(float(jref.v)) or not jalg.t.regular(1e-3, 1e12):
         rec.noncomp["reference-irregular"] += 1
         return
@@ -221,6 +247,7 @@ def run_chain(rec, rng, kind, op, n, heavy):
         try:
             b = B.Builder(DECLS, fresh_leaves=build.endswith("fresh-leaves"))
             e = build_left(b, terms, op, prequery=build.endswith("prequeried")) if build.startswith("left-deep") else build_balanced(b, terms, op)
+            e = wrap_obj(e)
         except Exception as ex:
             bad(f"build-raises:{type(ex).__name__}", build, error=repr(ex)[:200])
             continue
@@ -305,7 +332,7 @@ def run_chain(rec, rng, kind, op, n, heavy):
             b.params["p"].set(newp["p"])
             jalg2 = R.JetAlg(1, V, pt, newp)
             with np.errstate(all="ignore"):
-                jref2 = fold_ref(jalg2, R.Interp(D, jalg2), terms, op)
+                jref2 = wrap_ref(jalg2, fold_ref(jalg2, R.Interp(D, jalg2), terms, op))
             if math.isfinite(float(jref2.v)) and jalg2.t.regular(1e-3, 1e12):
                 mag2 = max(jalg2.t.mag, jalg2.t.dmag)
                 rec.cmp(1, "obs:after-set")
@@ -532,6 +559,18 @@ def run(ctx, rec):
                     with_thresholds(30, lambda: run_chain(rec, rng, kind, op, n, heavy=True))
                 else:
                     run_chain(rec, rng, kind, op, n, heavy=True)
+    # every unary function applied to a whole deep accumulation: f(t_1 + ... + t_n)
+    for fi, f in enumerate(R.FUNCS):
+        for ni, n in enumerate((450, 900)):
+            i += 1
+            if not ctx.mine(i * 3 + 1):
+                continue
+            if ctx.tier == "quick" and (fi + ni + ctx.seed) % 2:
+                continue
+            if rec.out_of_time():
+                rec.inconclusive.append("time budget reached in the outer-function matrix")
+                return
+            run_chain(rec, rng, ["lin", "pow2", "par", "fn:sin"][fi % 4], "+-"[fi % 2], n, heavy=True, outer=f)
     for ki, kind in enumerate(KINDS):
         for oi, op in enumerate(("+", "-")):
             for ni, n in enumerate((5000, 20000)):
